@@ -27,7 +27,23 @@ def profile():
 
 
 @st.composite
+def link_cases(draw, tier):
+    """(d) the parts link into one importable module that behaves like the declarations say:
+    an executable-profile module with a C04 call plan, cut into 2..4 interface files."""
+    from checks import c04
+    c = draw(c04.cases(tier).filter(lambda x: len(x['m'].content) >= 2))
+    n = len(c['m'].content)
+    k = draw(st.integers(2, min(4, n)))
+    cuts = sorted(draw(st.lists(st.integers(1, n - 1), min_size=k - 1, max_size=k - 1,
+                                unique=True)))
+    stems = list(draw(st.permutations(STEMS)))[:k - 1]
+    return {'kind': 'link', 'c04': c, 'cuts': cuts, 'stems': stems}
+
+
+@st.composite
 def cases(draw, tier):
+    if draw(st.integers(0, 23 if tier == 'quick' else 11)) == 7:
+        return draw(link_cases(tier))
     m = draw(G.modules(profile()).filter(lambda x: len(x.content) >= 1))
     items = list(m.content)
     k = draw(st.integers(1, min(4, len(items))))
@@ -52,6 +68,8 @@ def cases(draw, tier):
         ignore = draw(st.lists(st.sampled_from(['gtsam::A', 'Foo', 'ns1::Bar<double>', 'B']),
                                min_size=1, max_size=3, unique=True))
     opts = {'top': top, 'ignore': ignore, 'boost': draw(st.booleans())}
+    # both scripts read a leading '::' as "already rooted at the global namespace"
+    opts['top_cli'] = '::' + top if top and draw(st.integers(0, 2)) == 0 else top
     scripts = draw(st.integers(0, 7)) == 3
     return {'files': files, 'options': opts, 'scripts': scripts}
 
@@ -67,7 +85,17 @@ def _section(tu, begin, end):
     return [l.strip() for l in tu[a:b].splitlines() if l.strip()]
 
 
+def check_link(case):
+    from checks import c04
+    c = dict(case['c04'], split=(case['cuts'], case['stems']))
+    fails = c04.check(c)
+    case['_executed'] = c.get('_executed', 0)
+    return [Failure('C16.link:' + f.clause.split('.', 1)[1], f.detail) for f in fails]
+
+
 def check(case):
+    if case.get('kind') == 'link':
+        return check_link(case)
     out = []
     d = wraps.scratch_dir('c16')
     cwd = os.getcwd()
@@ -189,7 +217,8 @@ def _scripts(case, d, paths, stems, main_tu, sub_tus, listed):
         f.write(wraps.PYBIND_TPL)
     work = os.path.join(d, 'cli')
     os.makedirs(work)
-    common = ['--module_name', 'mymod', '--top_module_namespaces', opts['top'], '--ignore'] + \
+    common = ['--module_name', 'mymod', '--top_module_namespaces',
+              opts.get('top_cli', opts['top']), '--ignore'] + \
         list(opts['ignore'])
     boost = ['--use-boost-serialization'] if opts['boost'] else []
 
@@ -234,6 +263,10 @@ def _scripts(case, d, paths, stems, main_tu, sub_tus, listed):
 
 def features(case):
     f = set()
+    if case.get('kind') == 'link':
+        f.add('link-and-import')
+        f.add('link-parts-%d' % (len(case['cuts']) + 1))
+        return f
     n = len(case['files'])
     f.add('files-%d' % min(n, 4))
     tails = [t[len(t.rstrip()):] if t.rstrip() != t else '' for _, t in case['files']]
@@ -249,18 +282,37 @@ def features(case):
         f.add('top-depth-%d' % min(3, o['top'].count('::') + 1))
     if case.get('scripts'):
         f.add('scripts')
+        if o.get('top_cli', o['top']) != o['top']:
+            f.add('scripts-rooted-top-spelling')
     return f
+
+
+def _describe(c):
+    if c.get('kind') == 'link':
+        from checks import c04
+        return {'kind': 'link', 'c04': c04.describe(c['c04']), 'cuts': c['cuts'],
+                'stems': c['stems']}
+    return c
+
+
+def _from_replay(o):
+    if o.get('kind') == 'link':
+        from checks import c04
+        return {'kind': 'link', 'c04': c04.from_replay(o['c04']), 'cuts': o['cuts'],
+                'stems': o['stems']}
+    return o
 
 
 SPEC = Spec(
     pid='C16',
     strategy=lambda tier: cases(tier),
     check=check,
-    describe=lambda c: c,
-    from_replay=lambda o: o,
-    key=lambda c: repr(c),
+    describe=lambda c: _describe(c),
+    from_replay=lambda o: _from_replay(o),
+    key=lambda c: repr(_describe(c)),
     features=features,
-    nontrivial=lambda c, f: 'non-newline-tail-before-next-file' in f or 'options>=2' in f,
+    nontrivial=lambda c, f: 'non-newline-tail-before-next-file' in f or 'options>=2' in f or
+    'link-and-import' in f,
     rule="Hypothesis draws a semantic-profile module, splits it at drawn top-level boundaries "
          "into 1..4 files (main + sub-modules, some in sub-directories or a directory with a "
          "space), gives every file a drawn tail (newline, nothing, '// comment' without newline, "
@@ -274,10 +326,18 @@ SPEC = Spec(
          "(--src a;b;c, --top_module_namespaces, --ignore, --is_submodule, "
          "--use-boost-serialization, --template) and must produce byte-identical files to the "
          "library calls (and fail iff they fail). Non-trivial: a non-last file without final "
-         "newline, or >= 2 non-default options. Link+import of the parts is done by C04 "
-         "(thorough).",
+         "newline, or >= 2 non-default options, or a link case. (d) 1 in 24 cases (quick; 1 in "
+         "12 thorough) is an executable-profile module with a C04 call plan, cut into 2..4 "
+         "files (the last part is the main file: initialisers run before the main body, so "
+         "registration order equals declaration order), wrapped by one PybindWrapper through "
+         "wrap / wrap_submodule, each TU compiled separately against the mock library, linked "
+         "into one extension module, imported in a fresh CPython and driven by the plan; every "
+         "call must leave the predicted trace and result (C04's oracle).",
     budget={'quick': 24, 'thorough': 600},
-    size=lambda c: sum(len(t) for _, t in c['files']),
-    sample_fn=lambda c: c,
+    size=lambda c: sum(len(t) for _, t in c['files']) if 'files' in c else
+    len(R.text(c['c04']['m'])),
+    sample_fn=lambda c: _describe(c) if 'files' in c else
+    {'kind': 'link', 'cuts': c['cuts'], 'stems': c['stems'], 'text': R.text(c['c04']['m'])[:800],
+     'n_steps': len(c['c04']['plan'])},
     shrink_budget=60,
 )
